@@ -133,32 +133,29 @@ EventWord(toks, events) == <<<<"S", "GherkinDocument">>>> \o
    FlattenSeq([k \in 1..Len(events) |-> [m \in 1..Len(events[k]) |-> IF events[k][m][1] = "B" THEN <<"B", "#" \o toks[k].type>> ELSE events[k][m]]])
    \o <<<<"E", "GherkinDocument">>>>
 IgnoredB == {<<"B", "#Comment">>, <<"B", "#Empty">>}
-RECURSIVE SkipIgn(_, _)
-SkipIgn(w, j) == {j} \cup (IF j <= Len(w) /\ w[j] \in IgnoredB THEN SkipIgn(w, j + 1) ELSE {})
-RECURSIVE EndsSym(_, _, _), EndsEls(_, _, _, _, _), EndsAlt(_, _, _, _), EndsMany(_, _, _)
+\* "comment / blank tokens may stand anywhere": they are removed from the word, and the grammar's own #Comment / #Empty symbols match nothing
+\* (a '+' of symbols that may match nothing may then match nothing too: a description made of comments only)
+RECURSIVE EndsSym(_, _, _), EndsEls(_, _, _, _), EndsAlt(_, _, _, _), EndsMany(_, _, _)
 \* positions after one instance of symbol sym starting at position j of word w
 EndsSym(w, sym, j) ==
-   IF j > Len(w) THEN {}
+   IF sym \in {"#Comment", "#Empty"} THEN {j}
+   ELSE IF j > Len(w) THEN {}
    ELSE IF IsTok(sym) THEN (IF w[j] = <<"B", sym>> THEN {j + 1} ELSE {})
    ELSE IF Rules[sym].ast THEN
         (IF w[j] # <<"S", sym>> THEN {}
-         ELSE {e + 1 : e \in {x \in (IF Rules[sym].kind = "seq" THEN EndsEls(w, Rules[sym].els, 1, j + 1, TRUE) ELSE EndsAlt(w, Rules[sym].els, 1, j + 1)) :
+         ELSE {e + 1 : e \in {x \in (IF Rules[sym].kind = "seq" THEN EndsEls(w, Rules[sym].els, 1, j + 1) ELSE EndsAlt(w, Rules[sym].els, 1, j + 1)) :
                                    x <= Len(w) /\ w[x] = <<"E", sym>>}})
-   ELSE IF Rules[sym].kind = "seq" THEN EndsEls(w, Rules[sym].els, 1, j, TRUE) ELSE EndsAlt(w, Rules[sym].els, 1, j)
+   ELSE IF Rules[sym].kind = "seq" THEN EndsEls(w, Rules[sym].els, 1, j) ELSE EndsAlt(w, Rules[sym].els, 1, j)
 EndsAlt(w, els, i, j) == IF i > Len(els) THEN {} ELSE EndsSym(w, els[i].s, j) \cup EndsAlt(w, els, i + 1, j)
-\* one or more instances of sym from j (each instance consumes at least one position)
-EndsMany(w, sym, j) == LET one == EndsSym(w, sym, j) IN one \cup UNION {EndsMany(w, sym, e2) : e2 \in UNION {SkipIgn(w, e) : e \in {x \in one : x > j}}}
-\* positions after matching els[i..] from j; ignored tokens may be skipped at any point
-EndsEls(w, els, i, j, skipOk) ==
-   LET skip == IF skipOk /\ j <= Len(w) /\ w[j] \in IgnoredB THEN EndsEls(w, els, i, j + 1, TRUE) ELSE {} IN
-   skip \cup
-   (IF i > Len(els) THEN {j}
-    ELSE LET e == els[i]
-             once == EndsSym(w, e.s, j)
-             many == IF Rep(e.m) THEN EndsMany(w, e.s, j) ELSE once
-             after == UNION {EndsEls(w, els, i + 1, x, TRUE) : x \in many}
-         IN after \cup (IF Opt(e.m) THEN EndsEls(w, els, i + 1, j, FALSE) ELSE {}))
-P_C02_Derivation(toks, events) == LET w == EventWord(toks, events) IN (Len(w) + 1) \in EndsSym(w, "GherkinDocument", 1)
+\* one or more instances of sym from j (only instances that consume something are iterated)
+EndsMany(w, sym, j) == LET one == EndsSym(w, sym, j) IN one \cup UNION {EndsMany(w, sym, e) : e \in {x \in one : x > j}}
+\* positions after matching els[i..] from j
+EndsEls(w, els, i, j) ==
+   IF i > Len(els) THEN {j}
+   ELSE LET e == els[i]
+            many == IF Rep(e.m) THEN EndsMany(w, e.s, j) ELSE EndsSym(w, e.s, j)
+        IN UNION {EndsEls(w, els, i + 1, x) : x \in many} \cup (IF Opt(e.m) THEN EndsEls(w, els, i + 1, j) ELSE {})
+P_C02_Derivation(toks, events) == LET w == SelectSeq(EventWord(toks, events), LAMBDA x : x \notin IgnoredB) IN (Len(w) + 1) \in EndsSym(w, "GherkinDocument", 1)
 (* "with each tag line attached to the Examples, Scenario or Rule that follows it": no other element stands between a tag
    and its owner *)
 P_C02_TagOwner(doc, ix) == \A o \in SeqToSet(ix.owners) : \A j \in 1..Len(o.tags) : ~\E ln \in SeqToSet(Walk(doc)) : o.tags[j].line < ln /\ ln < o.line
